@@ -376,32 +376,38 @@ template <class Q> constexpr Q ce_as(Q x, Q y, int k) { if (k == 0) x += y; else
 template <class Q, class S> constexpr Q ce_sc(Q x, S s, int k) { if (k == 0) x *= s; else x /= s; return x; }
 template <class R> constexpr R ce_ras(R x, R y, int k) { if (k == 0) x += y; else x -= y; return x; }
 template <class R> constexpr R ce_rsc(R x, R s, int k) { if (k == 0) x *= s; else x /= s; return x; }
-template <class R, bool Wide = (sizeof(R) >= 4)> struct CEUnary {     // F4: `%`, unary +/- are not usable for narrow reps
+// operand pairs of the constant-expression checks: (7, 3); (max/2, 2): results at the upper limit of the rep; (lowest/2 + 1, 2):
+// negative operands (signed reps), results at the lower limit; all defined for every rep
+template <class R, int Sel> struct CEV {
+    static constexpr R a() { return Sel == 0 ? R(7) : Sel == 1 ? R(std::numeric_limits<R>::max() / 2) : R(std::numeric_limits<R>::lowest() / 2 + 1); }
+    static constexpr R b() { return Sel == 0 ? R(3) : R(2); }
+};
+template <class R, int Sel, bool Wide = (sizeof(R) >= 4)> struct CEUnary {     // F4: `%`, unary +/- are not usable for narrow reps
     static int bad() { return 0; }
 };
-template <class R, bool Int = std::is_integral<R>::value> struct CEMod { static int bad() { return 0; } };
-template <class R> struct CEMod<R, true> {
+template <class R, int Sel, bool Int = std::is_integral<R>::value> struct CEMod { static int bad() { return 0; } };
+template <class R, int Sel> struct CEMod<R, Sel, true> {
     static int bad() {
-        constexpr R a = R(7), b = R(3);
+        constexpr R a = CEV<R, Sel>::a(), b = CEV<R, Sel>::b();
         constexpr auto q = (au::make_quantity<U>(a) % au::make_quantity<U>(b)).in(U{});
         constexpr auto r = a % b;
         return (q == r && std::is_same<decltype(q), decltype(r)>::value) ? 0 : 1;
     }
 };
-template <class R> struct CEUnary<R, true> {
+template <class R, int Sel> struct CEUnary<R, Sel, true> {
     static int bad() {
-        constexpr R a = R(7);
+        constexpr R a = CEV<R, Sel>::a();
         constexpr auto qa = au::make_quantity<U>(a);
         constexpr auto n = (-qa).in(U{}); constexpr auto p = (+qa).in(U{});
         constexpr auto rn = -a; constexpr auto rp = +a;
-        return (n == rn ? 0 : 1) + (p == rp ? 0 : 1) + CEMod<R>::bad();
+        return (n == rn ? 0 : 1) + (p == rp ? 0 : 1) + CEMod<R, Sel>::bad();
     }
 };
-template <class R> static void ce_line(const char* rn) {
-    constexpr R a = R(7), b = R(3);
+template <class R, int Sel> static int ce_set(int& n) {
+    constexpr R a = CEV<R, Sel>::a(), b = CEV<R, Sel>::b();
     constexpr auto qa = au::make_quantity<U>(a);
     constexpr auto qb = au::make_quantity<U>(b);
-    int bad = 0, n = 0;
+    int bad = 0;
 #define CEQ(QE, RE) { constexpr auto q_ = (QE); constexpr auto r_ = (RE); ++n; if (!(q_ == r_) || !std::is_same<decltype(q_), decltype(r_)>::value) ++bad; }
     CEQ((qa + qb).in(U{}), a + b) CEQ((qa - qb).in(U{}), a - b) CEQ((qb - qa).in(U{}), b - a)
     CEQ((qa * b).in(U{}), a * b) CEQ((b * qa).in(U{}), b * a) CEQ((qa / b).in(U{}), a / b)
@@ -412,8 +418,13 @@ template <class R> static void ce_line(const char* rn) {
     using QR = au::Quantity<U, R>;
     CEQ(au::QuantityMaker<U>{}(a).in(au::QuantityMaker<U>{}), a) CEQ(QR{}.in(U{}), R{})
 #undef CEQ
-    bad += CEUnary<R>::bad();
-    std::printf("C %s n=%d bad=%d\n", rn, n + 3, bad);
+    n += 3;
+    return bad + CEUnary<R, Sel>::bad();
+}
+template <class R> static void ce_line(const char* rn) {
+    int n = 0;
+    int b0 = ce_set<R, 0>(n), b1 = ce_set<R, 1>(n), b2 = ce_set<R, 2>(n);
+    std::printf("C %s n=%d bad=%d bad0=%d bad1=%d bad2=%d\n", rn, n, b0 + b1 + b2, b0, b1, b2);
 }
 static void ce_dispatch(const char* r) {
     if (!std::strcmp(r, "i8")) ce_line<signed char>(r); else if (!std::strcmp(r, "u8")) ce_line<unsigned char>(r);
@@ -573,6 +584,10 @@ template <class T> struct CK { static void f() {
     { constexpr T c = -FB<T>::nan2(); constexpr T y = au::make_quantity<U>(c).template in<T>(U{}); ++n; if (!same_bits(c, y)) ++bad; }
     { constexpr T c = std::numeric_limits<T>::denorm_min(); constexpr T y = M{}(c).in(U{}); ++n; if (!same_bits(c, y)) ++bad; }
     { constexpr T c = std::numeric_limits<T>::max(); constexpr T y = M{}(c).in(U{}); ++n; if (!same_bits(c, y)) ++bad; }
+    { constexpr T c = std::numeric_limits<T>::lowest(); constexpr T y = M{}(c).in(U{}); ++n; if (!same_bits(c, y)) ++bad; }
+    { constexpr T c = std::numeric_limits<T>::min(); constexpr T y = M{}(c).template in<T>(U{}); ++n; if (!same_bits(c, y)) ++bad; }
+    { constexpr T c = -std::numeric_limits<T>::denorm_min(); constexpr T y = M{}(c).in(M{}); ++n; if (!same_bits(c, y)) ++bad; }
+    { constexpr T c = T(-1); constexpr T y = M{}(c).in(U{}); ++n; if (!same_bits(c, y)) ++bad; }
     std::printf("K n=%d bad=%d\n", n, bad); } };
 template <class T, bool Fl = std::is_floating_point<T>::value> struct CKD { static void f() {
     constexpr T lo = std::numeric_limits<T>::lowest(), hi = std::numeric_limits<T>::max();
